@@ -749,7 +749,16 @@ func (st *tunnelClientStream) RecvMsg(m interface{}) error {
 		return err
 	}
 	// TODO: support alternate codecs, compressors, etc
-	return proto.Unmarshal(data, m.(proto.Message))
+	if err := proto.Unmarshal(data, m.(proto.Message)); err != nil {
+		// The RPC cannot continue after this. A caller that gets an error
+		// from RecvMsg is entitled to consider the stream finished and stop
+		// reading, so make sure it really is finished (and that the server
+		// is told), instead of leaving it open with nobody consuming it.
+		err = status.Errorf(codes.Internal, "failed to unmarshal response message: %v", err)
+		st.cancelStream(err)
+		return err
+	}
+	return nil
 }
 
 func (st *tunnelClientStream) readMsg() (data []byte, ok bool, err error) {
